@@ -26,7 +26,7 @@ func init() {
 		Phases: func(tier string, seed int64) []Phase {
 			return []Phase{{Name: "fences", Race: true, Run: c12Run}}
 		},
-		MinObserved: []string{"fences_checked", "order/stop-before-run", "order/race-startup", "order/after-ready", "runs_with_handlers_parked_at_stop", "runs_with_onclose_slow", "runs_with_connect_storm", "runs_with_tls_sessions_torn_down", "tls_sessions_served_before_stop", "runs_with_parked_handlers_whose_client_hung_up", "runs_with_an_unbind_handler_held_at_stop", "runs_with_handlers_held_more_than_a_second_after_stop"},
+		MinObserved: []string{"fences_checked", "order/stop-before-run", "order/race-startup", "order/after-ready", "runs_with_handlers_parked_at_stop", "runs_with_onclose_slow", "runs_with_connect_storm", "runs_with_tls_sessions_torn_down", "tls_sessions_served_before_stop", "runs_with_parked_handlers_whose_client_hung_up", "runs_with_an_unbind_handler_held_at_stop", "runs_with_tls_handlers_parked_at_stop", "runs_with_an_onclose_callback_running_and_no_connection_open_at_stop", "runs_with_handlers_held_more_than_a_second_after_stop"},
 	})
 }
 
@@ -59,7 +59,7 @@ func c12One(c *Ctx, r *Rand, idx int) {
 	order := pick(r, []string{"stop-before-run", "race-startup", "race-startup", "after-ready", "after-ready", "after-ready", "after-ready"})
 	state := "none"
 	if order == "after-ready" {
-		state = pick(r, []string{"storm", "parked", "slow-onclose", "teardown", "idle", "parked+slow-onclose", "storm+parked", "tls-teardown", "parked-hangup", "unbind-held"})
+		state = pick(r, []string{"storm", "parked", "slow-onclose", "teardown", "idle", "parked+slow-onclose", "storm+parked", "tls-teardown", "parked-hangup", "unbind-held", "tls-parked", "onclose-running-at-stop"})
 	}
 	second := pick(r, []string{"no", "concurrent", "later"})
 	var inflight, onclosing atomic.Int64
@@ -68,9 +68,12 @@ func c12One(c *Ctx, r *Rand, idx int) {
 	seenConn := map[int]bool{}
 	closedConn := map[int]int{}
 	release := make(chan struct{})
-	slowClose := state == "slow-onclose" || state == "parked+slow-onclose"
-	parked := state == "parked" || state == "parked+slow-onclose" || state == "storm+parked" || state == "parked-hangup" || state == "unbind-held"
+	slowClose := state == "slow-onclose" || state == "parked+slow-onclose" || state == "onclose-running-at-stop"
+	parked := state == "parked" || state == "parked+slow-onclose" || state == "storm+parked" || state == "parked-hangup" || state == "unbind-held" || state == "tls-parked"
 	closeDelay := time.Duration(20+r.Intn(100)) * time.Millisecond
+	if state == "onclose-running-at-stop" {
+		closeDelay = time.Duration(250+r.Intn(200)) * time.Millisecond
+	}
 	cfg := SrvCfg{OnClose: func(id int) {
 		onclosing.Add(1)
 		lastEvent.Store(nextSeq())
@@ -83,7 +86,7 @@ func c12One(c *Ctx, r *Rand, idx int) {
 		lastEvent.Store(nextSeq())
 		onclosing.Add(-1)
 	}}
-	if state == "tls-teardown" {
+	if state == "tls-teardown" || state == "tls-parked" {
 		c12PKIOnce.Do(func() { c12PKI = newPKI() })
 		cfg.TLS = c12PKI.ServerOnly
 	}
@@ -192,6 +195,50 @@ func c12One(c *Ctx, r *Rand, idx int) {
 			}
 			for dl := time.Now().Add(5 * time.Second); parkedNow.Load() == 0 && time.Now().Before(dl); {
 				time.Sleep(100 * time.Microsecond)
+			}
+		case "tls-parked":
+			// handlers of ldaps connections parked at Stop
+			for i := 0; i < 1+r.Intn(3); i++ {
+				cn := dial()
+				if cn == nil {
+					continue
+				}
+				tc := tls.Client(cn, c12PKI.ClientPlain)
+				cn.SetDeadline(time.Now().Add(patience))
+				if tc.Handshake() != nil {
+					continue
+				}
+				cn.SetDeadline(time.Time{})
+				tc.Write(search(1, "x"))
+				if _, err := wrapClient(tc).ReadMsg(patience); err == nil {
+					c.Count("tls_sessions_served_before_stop", 1)
+				}
+				tc.Write(search(2, "park"))
+			}
+			for dl := time.Now().Add(5 * time.Second); parkedNow.Load() == 0 && time.Now().Before(dl); {
+				time.Sleep(100 * time.Microsecond)
+			}
+			if parkedNow.Load() > 0 {
+				c.Count("runs_with_tls_handlers_parked_at_stop", 1)
+			}
+		case "onclose-running-at-stop":
+			// every connection has already gone when Stop is called - but the OnClose callback of one of them is
+			// still running (held by the harness)
+			for i := 0; i < 1+r.Intn(3); i++ {
+				if cn := dial(); cn != nil {
+					served(cn, "x")
+				}
+			}
+			cmu.Lock()
+			for _, cn := range clients {
+				cn.Close()
+			}
+			cmu.Unlock()
+			for dl := time.Now().Add(2 * time.Second); onclosing.Load() == 0 && time.Now().Before(dl); {
+				time.Sleep(100 * time.Microsecond)
+			}
+			if onclosing.Load() > 0 {
+				c.Count("runs_with_an_onclose_callback_running_and_no_connection_open_at_stop", 1)
 			}
 		case "parked-hangup":
 			// clients whose handler is parked hang up (FIN, or reset) before Stop: the handler is still the server's
